@@ -40,7 +40,8 @@ def main():
                 m = _re.search(r"go:build (\w+)", dtxt)
                 tags = ("-tags %s " % m.group(1)) if m else ""
                 race = "-race " if meta0.get("demo_race") else ""
-                r = sh("go test -vet=off -count=1 %s%s-run 'Demo' ./%s" % (race, tags, pkgdir), wt)
+                names = _re.findall(r"^func (Test\w+)\(", dtxt, _re.M)
+                r = sh("go test -vet=off -count=1 %s%s-run '^(%s)$' ./%s" % (race, tags, "|".join(names) or "Demo", pkgdir), wt)
                 os.remove(os.path.join(wt, pkgdir, "zz_demo_test.go")); return r
             else:
                 os.makedirs(os.path.join(wt, "cmd", "zzdemo"), exist_ok=True)
